@@ -55,8 +55,17 @@ pub fn deliver_pat(stateless_rx: bool, rx_initiator: bool, oneway: bool) {
         CKEY[6] = k3;
         CKEY[7] = k3;
     }
-    let peer = StatelessTransportState::verif_from_parts(Box::new(ICipher::<1>), Box::new(ICipher::<2>), pattern, 4, [0u8; MAXDHLEN], false, !rx_initiator);
-    let stranger = StatelessTransportState::verif_from_parts(Box::new(ICipher::<6>), Box::new(ICipher::<7>), pattern, 4, [0u8; MAXDHLEN], false, !rx_initiator);
+    let mut peer = StatelessTransportState::verif_from_parts(Box::new(ICipher::<1>), Box::new(ICipher::<2>), pattern, 4, [0u8; MAXDHLEN], false, !rx_initiator);
+    let mut stranger = StatelessTransportState::verif_from_parts(Box::new(ICipher::<6>), Box::new(ICipher::<7>), pattern, 4, [0u8; MAXDHLEN], false, !rx_initiator);
+    // optionally every party first rekeys both of its directions (in step): authentication must be unaffected -
+    // in particular the two directions and the stranger session must still have different keys afterwards
+    let rekey_all: bool = kani::any();
+    if rekey_all {
+        peer.rekey_outgoing();
+        peer.rekey_incoming();
+        stranger.rekey_outgoing();
+        stranger.rekey_incoming();
+    }
     // two genuine messages of the peer under arbitrary nonces, one of a stranger session
     let j1: u64 = kani::any();
     let j2: u64 = kani::any();
@@ -72,6 +81,7 @@ pub fn deliver_pat(stateless_rx: bool, rx_initiator: bool, oneway: bool) {
     let mut m4 = [0u8; DMAX];
     // in a one-way session only the initiator writes: when the receiver under test is the initiator, the "peer
     // messages" are its own reflected traffic, written by a stateless twin holding the same keys
+    // (shares the peer's cipher objects 1 and 2, hence also their rekeyed keys)
     let twin = StatelessTransportState::verif_from_parts(Box::new(ICipher::<1>), Box::new(ICipher::<2>), pattern, 4, [0u8; MAXDHLEN], false, true);
     let writer = if oneway && rx_initiator { &twin } else { &peer };
     let n1 = writer.write_message(j1, &p1[..l1], &mut m1).unwrap();
@@ -87,7 +97,11 @@ pub fn deliver_pat(stateless_rx: bool, rx_initiator: bool, oneway: bool) {
     let mut out = [0u8; 8];
 
     let (r, rx_after, tx_after, tx_before) = if stateless_rx {
-        let rx = StatelessTransportState::verif_from_parts(Box::new(ICipher::<4>), Box::new(ICipher::<5>), pattern, 4, [0u8; MAXDHLEN], false, rx_initiator);
+        let mut rx = StatelessTransportState::verif_from_parts(Box::new(ICipher::<4>), Box::new(ICipher::<5>), pattern, 4, [0u8; MAXDHLEN], false, rx_initiator);
+        if rekey_all {
+            rx.rekey_outgoing();
+            rx.rekey_incoming();
+        }
         // the receiver's own message (reflection candidate), under the very nonce it will read with
         let mut m3 = [0u8; DMAX];
         let _ = rx.write_message(n_rx, &p2[..l2], &mut m3);
@@ -95,6 +109,10 @@ pub fn deliver_pat(stateless_rx: bool, rx_initiator: bool, oneway: bool) {
     } else {
         let (ni, nr) = if rx_initiator { (n_tx, n_rx) } else { (n_rx, n_tx) };
         let mut rx = TransportState::verif_from_parts(Box::new(ICipher::<4>), ni, Box::new(ICipher::<5>), nr, pattern, 4, [0u8; MAXDHLEN], false, rx_initiator);
+        if rekey_all {
+            rx.rekey_outgoing();
+            rx.rekey_incoming();
+        }
         let mut m3 = [0u8; DMAX];
         let _ = rx.write_message(&p2[..l2], &mut m3);
         let txb = rx.sending_nonce();
